@@ -14,6 +14,8 @@ Definition ex_in_bad : list rune := [97; 98; 122].      (* "abz" : rejected *)
 
 Lemma ex_good : good_grammar ex_g.
 Proof. apply good_grammar_b_ok. vm_compute. reflexivity. Qed.
+Lemma ex_sw : good_switches ex_g.
+Proof. apply good_switches_b_ok. vm_compute. reflexivity. Qed.
 Lemma ex_buf_ok : good_buf ex_in_ok.
 Proof. intros c H. cbn in H. intuition (subst; discriminate). Qed.
 Lemma ex_buf_bad : good_buf ex_in_bad.
